@@ -280,7 +280,7 @@ func init() {
 		Level: "exploration",
 		Rule: "type-directed programs and type-breaking mutants (only those the real checker accepts are executed) over environments whose values carry permuted object-field layouts; " +
 			"string literals whose text is a rendering of a time / number / boolean literal of the same program; all field-order permutations (2-4 fields) of structurally equal objects side by side in list / if / ?: / map / get / union / lazy host call / nested; host data through conv with interface-typed parts; " +
-			"monitor = deep walk of every returned value and of every value handed to a host function against the checker's OWN inferred type (nil, type of each component vs. the container's declared component type, map-key tags, object slot counts), on 4 back ends, also under -race (checkptr). distinct = distinct accepted source",
+			"monitor = deep walk of every returned value and of every value handed to a host function against the checker's OWN inferred type (nil, type of each component vs. the container's declared component type, map-key tags, object slot counts), on 4 back ends of the plain pipeline plus 2 long-lived public engines, also under -race (checkptr). distinct = distinct accepted source",
 		Assume: []string{"types.Equals is cross-checked against the reference equality on every walked node"},
 		Builds: []string{"race", "asan"}, SanFrac: 8,
 		MinEvents: 2000, EventKey: "values_walked",
@@ -439,7 +439,7 @@ func init() {
 		Level: "exploration",
 		Rule: "type-directed programs with deliberate partial-operation failures and boundary operands (negative, fractional, huge, NaN, ±Inf indices; missing keys; zero / fractional / out-of-int64 moduli; invalid patterns; empty containers) in every operand position, " +
 			"accepted mutants, and size families crossing the VM's 42-slot stack, 8-bit and 16-bit operand ranges (40..1100 members / depth, 254..256 arguments, branches > 255 bytes); " +
-			"monitor = outcome classifier (VALUE | INDEX | KEY | MOD0 | REGEX | INTERNAL | process death) against the reference evaluator's prediction, on 4 back ends, whole quick workload also under -race/checkptr. distinct = distinct accepted source or fixed case id",
+			"monitor = outcome classifier (VALUE | INDEX | KEY | MOD0 | REGEX | INTERNAL | process death) against the reference evaluator's prediction, on 4 back ends of the plain pipeline plus 2 long-lived public engines, whole quick workload also under -race/checkptr. distinct = distinct accepted source or fixed case id",
 		Assume: []string{"the reference evaluator encodes the documented partial operations (DESIGN.md Appendix A)", "% outside the int64 range and strtotime of non-absolute forms are oracle-silent (only INTERNAL / death are checked there)"},
 		Builds: []string{"race", "asan"}, SanFrac: 4,
 		MinEvents: 2000, EventKey: "executions_classified",
@@ -467,7 +467,7 @@ func init() {
 	run.Register(&run.Spec{
 		ID: "C04", Run: runC04, Level: "exploration",
 		Rule: "exhaustive application of every documented operator / built-in to tuples from per-type boundary pools (numbers: ±0, tolerance edges 1±0.5e-9..1±2e-9, 2^53±1, 2^63, 1e19, 1e20, 1e308, 5e-324, ±Inf, NaN; strings: empty, ASCII, CJK, emoji, combining marks, quotes, backslashes, control, invalid UTF-8; lists with duplicates / empties / shared sub-values; absolute time forms), then random nested programs; " +
-			"monitor = element-by-element comparison (exact float bits, NaN≡NaN) with the reference evaluator, 4 back ends, under TZ=UTC and TZ=Asia/Shanghai. distinct = distinct source+environment",
+			"monitor = element-by-element comparison (exact float bits, NaN≡NaN) with the reference evaluator, 4 back ends plus 2 long-lived public engines, under TZ=UTC and TZ=Asia/Shanghai. distinct = distinct source+environment",
 		Assume:    []string{"reference = IEEE-754 via Go's own + - * / math.Pow/Abs/Ceil/Floor/Round/Max/Min, documented ε=1e-9 comparisons, Go RE2 for match, time.Date for absolute time forms", "relative time forms (now, today) and % outside int64 are excluded"},
 		MinEvents: 5000, EventKey: "values_compared",
 		WorkerEnv: func(i int) []string {
@@ -879,7 +879,7 @@ func init() {
 		},
 		Level: "exploration",
 		Rule: "enumerated laziness families: every lazy form (if, ?:, &&, ||, user lzIf / lzAnd / pick3) × every selection with effect-recording operands and failing-and-recording operands in the unselected positions, nested two and three deep (deferred code that calls lazy functions), rev2 / twice (thunks forced in reverse / twice), every strict operand position (arguments, list elements, map key-then-value, object fields, container-then-index, receiver-then-arguments), the guarded idiom if(isset(m,k), m[k], d) over present / absent keys; then random programs with 15% failing sub-terms; the enumerated families once more through the public engine (vm and closure compiler), compiled with no variables at all (nil / empty map / empty struct / empty *types.Env) where the program uses none, one Callable invoked three times; " +
-			"monitor = ordered host-call trace and failure/value outcome compared with the reference evaluator's, on 4 back ends. distinct = case id or distinct source",
+			"monitor = ordered host-call trace and failure/value outcome compared with the reference evaluator's, on 4 back ends of the plain pipeline plus 2 long-lived public engines. distinct = case id or distinct source",
 		Assume:    []string{"trace entries are (function, rendered arguments); lazy functions record at entry"},
 		MinEvents: 2000, EventKey: "traces_compared",
 	})
